@@ -35,6 +35,7 @@ theorem pullClear_units : ∀ c u us rest, pullClear c = some (u, us, rest) →
 def M (N : Nat) (s : Sess) : Prop := meas s ≤ N
 
 theorem M_io (N : Nat) : ClosedIO (M N) where
+  hello := fun s h => sendHello_ind (P := M N) s h (fun n => h)
   hs := fun s h => h
   fromBuf := by
     intro s o u rest h hb
@@ -59,6 +60,7 @@ theorem M_neg (N : Nat) : ClosedNeg (M N) where
   wHdr := fun s h => h
   wStartTLS := fun s h => h
   wOther := fun s id h => h
+  choose := fun s h => h
   oracle := fun s o h => h
   neg := fun s m id h => h
   first := fun s h => h
@@ -78,7 +80,9 @@ theorem handshake_fields (s : Sess) (a : PUnit) (s' : Sess) (he : handshake s = 
     · cases he
     · split at he
       · cases he
-      · cases he; exact ⟨rfl, rfl, rfl, rfl⟩
+      · cases he
+        have := sendHello_fields s
+        exact ⟨this.1, this.2.1, this.2.2.1, this.2.2.2.1⟩
   · cases he; exact ⟨rfl, rfl, rfl, rfl⟩
 
 /-- a computation that does not stop for lack of fuel -/
@@ -177,8 +181,8 @@ theorem expectHdr_nf : ∀ n s, meas s < n → NoFuel (expectHdr n s) := by
 theorem negotiateOne_nf (c : Cached) (res : NegRes) (s : Sess) : NoFuel (negotiateOne c res s) := by
   unfold negotiateOne
   split
-  · have hw := write_nf .wStartTLS s
-    cases hh : write .wStartTLS s with
+  · have hw := write_nf .wStartTLS (chooseConfig s)
+    cases hh : write .wStartTLS (chooseConfig s) with
     | stop w s' => rw [hh] at hw; exact NoFuel_stop w s' hw
     | ok a s1 =>
       dsimp only
@@ -377,8 +381,8 @@ theorem loop_nf (cfg : Cfg) : ∀ fuel teeOn s, meas s < fuel → (loop cfg fuel
 /-- units in the peer's script -/
 def Input.units (i : Input) : Nat := segUnits i.clear + i.prot.length
 
-theorem run_nf (cfg : Cfg) (st0 : Mask) (i : Input) (fuel : Nat) (h : i.units < fuel) :
-    (run cfg st0 i fuel).2 ≠ .stop .fuel := by
+theorem run_nf (cfg : Cfg) (env : Env) (st0 : Mask) (i : Input) (fuel : Nat) (h : i.units < fuel) :
+    (run cfg env st0 i fuel).2 ≠ .stop .fuel := by
   unfold run
   split
   · intro hc; cases hc
